@@ -65,6 +65,9 @@ XUNITS = ['m', 'mm', 'angstrom', 'us', 's', 'meV', 'dimensionless']
 YUNITS = ['counts', 'dimensionless', 'K']
 ALT = {'m': 'mm', 'mm': 'm', 'angstrom': 'nm', 'us': 'ms', 's': 'us', 'meV': 'eV'}
 PREFIXES = ['', '', 'p_', 'peak1_', 'g', 'a', 'bkg.', 'L ', 'x-y_', '_', 'amplitude', '0', 'Aa_Zz9', 'a"b', 'loc']
+# prefixes that occur inside bare parameter names (amplitude, loc, scale, fraction, a0..a6): a with_prefix that
+# renames by string replacement instead of prefix + bare name goes wrong exactly on these
+NASTY = ['p', 'a', 'l', 'sc', 'e', 'loc', 'amp', 'frac', '0', '1', 'a1', 'scale']
 ZS = [0.0, 0.5, -0.5, 1.0, -1.0, 2.5, -2.5, 6.0, -6.0, 12.0, -12.0, 30.0, -30.0, 0.1, -1.7, 3.3]
 TOL = '(1 # 1000000000000)'
 
@@ -82,20 +85,45 @@ def sgn(rng):
     return rng.choice([1.0, -1.0])
 
 
-def gen_leaf(rng, kind=None, prefix=None):
+def route(rng, m, prefix=None, nasty=False):
+    """how the object gets its final prefix: by the constructor, by one with_prefix, or by a chain of 2-3
+    re-prefixings starting from a constructor prefix that is a substring of a parameter name"""
+    pool = NASTY + PREFIXES
+    how = 'chain' if nasty else rng.choice(['ctor', 'ctor', 'with_prefix', 'chain', 'chain'])
+    if how == 'ctor' and m.get('via') != 'add':
+        m['prefix'] = rng.choice(pool) if prefix is None else prefix
+        m['ctor'], m['chain'] = m['prefix'], []
+    elif how == 'with_prefix' or (how == 'ctor'):
+        m['prefix'] = rng.choice(pool) if prefix is None else prefix
+        m['ctor'], m['chain'] = '', [m['prefix']]
+    else:
+        m['ctor'] = '' if m.get('via') == 'add' else rng.choice(NASTY)
+        chain = [rng.choice(pool) for _ in range(rng.randint(1, 2))]
+        if prefix is not None:
+            chain.append(prefix)
+        if rng.random() < 0.3:
+            chain.insert(0, rng.choice(NASTY))
+        m['chain'] = chain
+        m['prefix'] = chain[-1]
+    return m
+
+
+def gen_leaf(rng, kind=None, prefix=None, nasty=False):
     kind = kind or rng.choice(['gauss', 'lorentz', 'pvoigt', 'poly'])
-    m = {'kind': kind, 'prefix': rng.choice(PREFIXES) if prefix is None else prefix,
-         'via': rng.choice(['ctor', 'ctor', 'with_prefix'])}
+    m = {'kind': kind}
     if kind == 'poly':
         m['degree'] = rng.randint(1, 6)
-    return m
+    return route(rng, m, prefix, nasty)
+
+
+def gen_comp(rng, left, right, prefix=None, nasty=False):
+    return route(rng, {'kind': 'comp', 'via': rng.choice(['ctor', 'add']), 'left': left, 'right': right}, prefix, nasty)
 
 
 def gen_model(rng, depth):
     if depth == 0 or rng.random() < 0.4:
         return gen_leaf(rng)
-    return {'kind': 'comp', 'prefix': rng.choice(PREFIXES), 'via': rng.choice(['ctor', 'add']),
-            'left': gen_model(rng, depth - 1), 'right': gen_model(rng, depth - 1)}
+    return gen_comp(rng, gen_model(rng, depth - 1), gen_model(rng, depth - 1))
 
 
 def base_names(m):
@@ -186,22 +214,33 @@ def gen_groups(rng, n):
     groups = []
     # a fixed battery first: every kind of wrong parameter set on every kind of model
     battery = [(k, mu) for k in ('gauss', 'lorentz', 'pvoigt', 'poly', 'comp') for mu in ('missing', 'extra', 'wrong-prefix')]
-    for gi in range(n + len(battery)):
+    # ... and every observation on every kind of model after a chain of re-prefixings that starts from a
+    # constructor prefix occurring inside a bare parameter name
+    battery2 = [(k, w) for k in ('gauss', 'lorentz', 'pvoigt', 'poly', 'comp') for w in ('names', 'bounds', 'guess', 'call', 'fwhm')]
+    for gi in range(n + len(battery) + len(battery2)):
         r = rng.random()
         forced = battery[gi] if gi < len(battery) else None
+        forced2 = battery2[gi - len(battery)] if len(battery) <= gi < len(battery) + len(battery2) else None
         if forced:
             r = 0.9
+        if forced2:
+            r = 0.5
         ux, uy = rng.choice(XUNITS), rng.choice(YUNITS)
         xdt = rng.choice(['float64', 'float64', 'float64', 'float32', 'int64'])
         # integer x: widths >= 10 so that rounding x to integers keeps |x - loc| / scale moderate (the exact
         # rational exp of the model is only affordable for arguments down to about -1e6)
         width = kcorr.loguniform(rng, 1e-6, 1e6) if xdt != 'int64' else kcorr.loguniform(rng, 10, 1e6)
+        if xdt != 'int64' and rng.random() < 0.15:
+            width = rng.choice([1e-6, 2e-6, 5e-6, 1e-5])      # lower end of the range, numerically in the unit of x
         center = rng.choice([0.0, sgn(rng) * kcorr.loguniform(rng, 1e-3, 1e3) * width,
                              sgn(rng) * kcorr.loguniform(rng, 1e3, 1e6) * width])
         if xdt == 'int64':
             center = float(max(-2 ** 40, min(2 ** 40, round(center))))
         m = gen_model(rng, 2) if r < 0.45 else gen_leaf(rng)
         what, mutate = 'call', None
+        if 0.72 <= r < 0.80:
+            what = rng.choice(['names', 'bounds', 'guess'])
+            m = gen_model(rng, 1)
         if 0.80 <= r < 0.88:
             what = 'fwhm'
             m = gen_leaf(rng) if rng.random() < 0.9 else gen_model(rng, 1)
@@ -211,24 +250,32 @@ def gen_groups(rng, n):
         if forced:
             mutate = forced[1]
             m = gen_leaf(rng, forced[0]) if forced[0] != 'comp' else \
-                {'kind': 'comp', 'prefix': rng.choice(PREFIXES), 'via': rng.choice(['ctor', 'add']),
-                 'left': gen_leaf(rng, 'poly', 'b_'), 'right': gen_leaf(rng, rng.choice(['gauss', 'lorentz', 'pvoigt']), 'p_')}
+                gen_comp(rng, gen_leaf(rng, 'poly', 'b_'), gen_leaf(rng, rng.choice(['gauss', 'lorentz', 'pvoigt']), 'p_'))
+        if forced2:
+            what = forced2[1]
+            m = gen_leaf(rng, forced2[0], nasty=True) if forced2[0] != 'comp' else \
+                gen_comp(rng, gen_leaf(rng, 'poly', 'b_', nasty=True),
+                         gen_leaf(rng, rng.choice(['gauss', 'lorentz', 'pvoigt']), 'p_', nasty=True), nasty=True)
         if mutate == 'overlap':
             p = rng.choice(PREFIXES)
             k = rng.choice(['gauss', 'lorentz', 'pvoigt'])
-            m = {'kind': 'comp', 'prefix': rng.choice(PREFIXES), 'via': rng.choice(['ctor', 'add']),
-                 'left': gen_leaf(rng, k, p), 'right': gen_leaf(rng, rng.choice(['gauss', 'lorentz', 'pvoigt']), p)}
+            m = gen_comp(rng, gen_leaf(rng, k, p), gen_leaf(rng, rng.choice(['gauss', 'lorentz', 'pvoigt']), p))
         if mutate == 'degree0':
             m = gen_leaf(rng, 'poly')
             m['degree'] = rng.choice([0, -1])
-            m['via'] = 'ctor'
         if mutate == 'y-mismatch':
-            m = {'kind': 'comp', 'prefix': '', 'via': 'add', 'left': gen_leaf(rng, None, 'l_'), 'right': gen_leaf(rng, None, 'r_')}
+            m = gen_comp(rng, gen_leaf(rng, None, 'l_'), gen_leaf(rng, None, 'r_'), '')
         if not constructible(m) and mutate not in ('overlap', 'degree0'):
             # random trees with clashing names: keep them as construction cases
             mutate = 'overlap'
         if mutate in ('overlap', 'degree0'):
             groups.append({'id': gi, 'what': 'construct', 'model': m, 'params': {}, 'x': None, 'info': [], 'mutate': mutate})
+            continue
+        if what in ('names', 'bounds', 'guess'):
+            xs = [center + (j - 6) * 0.7 * width for j in range(13)]
+            ys = [1.0 + 5.0 * math.exp(-((j - 6) * 0.7) ** 2 / 2) + 0.01 * j for j in range(13)]
+            groups.append({'id': gi, 'what': what, 'model': m, 'params': {}, 'x': var(xs, [[ux, 1]], 'float64', 'x'),
+                           'y': var(ys, [[uy, 1]], 'float64', 'x'), 'info': [], 'mutate': None})
             continue
         params, info = gen_params(rng, m, ux, uy, center, width)
         zs = rng.sample(ZS, 4 if n <= 200 else 6)
@@ -274,12 +321,17 @@ def cstr(s):
 
 
 def model_term(m):
+    """the object as the hand model builds it: constructor prefix, then the chain of with_prefix calls"""
     if m['kind'] == 'comp':
-        return f'(Comp {cstr(m["prefix"])} {model_term(m["left"])} {model_term(m["right"])})'
-    k = {'gauss': 'KGauss', 'lorentz': 'KLorentz', 'pvoigt': 'KPVoigt'}.get(m['kind'])
-    if k is None:
-        k = f'(KPoly ({m["degree"]}))'
-    return f'(Leaf {k} {cstr(m["prefix"])})'
+        base = f'(Comp {cstr(m["ctor"])} {model_term(m["left"])} {model_term(m["right"])})'
+    else:
+        k = {'gauss': 'KGauss', 'lorentz': 'KLorentz', 'pvoigt': 'KPVoigt'}.get(m['kind'])
+        if k is None:
+            k = f'(KPoly ({m["degree"]}))'
+        base = f'(Leaf {k} {cstr(m["ctor"])})'
+    if m['chain']:
+        return '(with_prefixes [' + '; '.join(cstr(p) for p in m['chain']) + f'] {base})'
+    return base
 
 
 DUMMY = '(mkinp (0 # 1) (1 # 1) []%Z DF64)'
@@ -298,8 +350,15 @@ def cases_of(g, r):
         cls = r.get('construct_error', 'ok')
         return [(f'(mkp "construct" {mt} [] {DUMMY} (OutErr {cstr(cls)}) {TOL} (0 # 1))', dict(desc0, impl=cls))]
     if 'construct_error' in r:
-        return [(f'(mkp "call" {mt} [] {DUMMY} (OutErr {cstr(r["construct_error"])}) {TOL} (0 # 1))',
+        return [(f'(mkp {cstr(g["what"])} {mt} [] {DUMMY} (OutErr {cstr(r["construct_error"])}) {TOL} (0 # 1))',
                  dict(desc0, impl='construct ' + r['construct_error']))]
+    if g['what'] in ('names', 'bounds', 'guess'):
+        if 'error' in r:
+            return [(f'(mkp {cstr(g["what"])} {mt} [] {DUMMY} (OutErr {cstr(r["error"])}) {TOL} (0 # 1))',
+                     dict(desc0, impl='raises ' + r['error'] + ': ' + r.get('error_text', '')))]
+        keys = r['param_names'] if g['what'] == 'names' else r['keys']
+        ks = '[' + '; '.join(f'({cstr(k)}, {DUMMY})' for k in keys) + ']'
+        return [(f'(mkp {cstr(g["what"])} {mt} {ks} {DUMMY} (OutErr "ok") {TOL} (0 # 1))', dict(desc0, impl={'keys': keys}))]
     ps = '[' + '; '.join(f'({cstr(k)}, {kcorr.inp_term(st, 0)})' for k, st in r['params'].items()) + ']'
     pdesc = {k: kcorr.describe(st, 0) for k, st in r['params'].items()}
     if 'error' in r:
@@ -338,7 +397,7 @@ HEADER = ('From Coq Require Import QArith ZArith String List.\n'
 
 
 def strip(g):
-    return {k: g[k] for k in ('id', 'what', 'model', 'params', 'x')}
+    return {k: g[k] for k in ('id', 'what', 'model', 'params', 'x', 'y') if k in g}
 
 
 def correspondence(ctx):
@@ -357,6 +416,10 @@ def correspondence(ctx):
         if 'param_names' in r and sorted(r['param_names']) != sorted(set(pnames(g['model']))):
             ctx.violation('param_names', f'model.param_names {r["param_names"]} differ from prefix + names for {g["model"]}',
                           {'group': strip(g), 'impl_param_names': r['param_names']})
+        for k, b in (r.get('bounds') or {}).items():
+            want = [0.0, 1.0] if k.endswith('fraction') else [0.0, float('inf')]
+            if b != want:
+                ctx.violation('param_bounds:values', f'param_bounds[{k!r}] = {b}, documented {want}', {'group': strip(g), 'bounds': r['bounds']})
         for t, d in cases_of(g, r):
             terms.append(t)
             descs.append(dict(d, group=g['id']))
@@ -442,15 +505,17 @@ def search(ctx, broken):
         thetas += [(a + b) / 2 + (b - a) / 2 * t for t in nodes]
         wts += [(b - a) / 2 * wq for wq in weights]
     trials = []
-    for trial in range(24):
+    for trial in range(30):
         kind = ['gauss', 'lorentz', 'pvoigt'][trial % 3]
         ux, uy = rng.choice(XUNITS), rng.choice(YUNITS)
-        s = kcorr.loguniform(rng, 1e-6, 1e6)
+        # numeric scales at and below the lower end of the property's range (in whatever unit x has) first:
+        # a raised division-by-zero floor only shows there
+        s = [1e-6, 5e-6, 3e-9, 1e-12][trial // 3] if trial < 12 else kcorr.loguniform(rng, 1e-6, 1e6)
         mu = rng.choice([0.0, float(rng.randint(-8, 8)) * s])
         A = sgn(rng) * kcorr.loguniform(rng, 1e-3, 1e3)
         f = rng.choice([0.0, 1.0, 0.25, rng.random()])
         p = rng.choice(PREFIXES)
-        m = {'kind': kind, 'prefix': p, 'via': 'ctor'}
+        m = {'kind': kind, 'prefix': p, 'ctor': p, 'chain': []}
         params = {p + 'amplitude': var([A], [[uy, 1], [ux, 1]]), p + 'loc': var([mu], [[ux, 1]]),
                   p + 'scale': var([s], [[ux, 1]])}
         if kind == 'pvoigt':
@@ -530,15 +595,15 @@ def search(ctx, broken):
         cs = [float(rng.randint(-9, 9)) / 4 for _ in range(deg + 1)]
         xs = [float(rng.randint(-12, 12)) / 8 for _ in range(5)]
         p = rng.choice(PREFIXES)
-        m = {'kind': 'poly', 'degree': deg, 'prefix': p, 'via': 'ctor'}
+        m = {'kind': 'poly', 'degree': deg, 'prefix': p, 'ctor': p, 'chain': []}
         params = {f'{p}a{i}': var([c], [[uy, 1], [ux, -i]]) for i, c in enumerate(cs)}
         g = {'id': 0, 'what': 'call', 'model': m, 'params': params, 'x': var(xs, [[ux, 1]], 'float64', 'x')}
-        pg = {'kind': 'gauss', 'prefix': 'g_', 'via': 'ctor'}
+        pg = {'kind': 'gauss', 'prefix': 'g_', 'ctor': 'g_', 'chain': []}
         gp = {'g_amplitude': var([1.5], [[uy, 1], [ux, 1]]), 'g_loc': var([0.25], [[ux, 1]]), 'g_scale': var([0.5], [[ux, 1]])}
-        comp = {'kind': 'comp', 'prefix': 'c.', 'via': 'add', 'left': m, 'right': pg}
+        comp = {'kind': 'comp', 'prefix': 'c.', 'via': 'add', 'ctor': '', 'chain': ['c.'], 'left': m, 'right': pg}
         cparams = {'c.' + k: v for k, v in {**params, **gp}.items()}
         q = rng.choice([x for x in PREFIXES if x != p])
-        mq = dict(m, prefix=q)
+        mq = dict(m, prefix=q, ctor=rng.choice(NASTY), chain=[rng.choice(NASTY), q])
         qparams = {f'{q}a{i}': var([c], [[uy, 1], [ux, -i]]) for i, c in enumerate(cs)}
         miss = dict(params)
         del miss[f'{p}a{deg}']
